@@ -91,6 +91,10 @@ def gen_sched(r: Any, sid: str, kn: dict, start_us: int, horizon_us: int, onesho
     else:
         s["cron"] = gen_expr(r, dense=kn["dense_cron"])
         s["offset"] = gen_offset(r)
+        if r.random() < kn.get("p_invalid_cron", 0.03):
+            # an expression that cannot be parsed (wrong number of fields): matches no minute, must not disturb the other schedules
+            s["cron"] = r.choice(["abc", "* * * *", "* * * * * *", ""])
+            s["invalid_cron"] = True
     return s
 
 
@@ -122,6 +126,8 @@ def gen_sched_script(rs: int, knobs: Optional[dict] = None) -> dict:
                     if "cron" in e:
                         ent["cron"] = e["cron"]
                         ent["offset"] = e["offset"]
+                        if e.get("invalid_cron"):
+                            ent["invalid_cron"] = True
                     else:
                         ent["time"] = e["time"]
                     if r.random() < 0.3:
@@ -161,7 +167,7 @@ def gen_sched_script(rs: int, knobs: Optional[dict] = None) -> dict:
                 sc = gen_sched(r, sid, kn, start_us, horizon_us)
                 if r.random() < 0.4:
                     # created through task.kicker().schedule_by_time / schedule_by_cron (a CronSpec carries the offset)
-                    sc["cronspec"] = sc.get("cron") is not None and (sc.get("offset") is not None or r.random() < 0.5)
+                    sc["cronspec"] = sc.get("cron") is not None and (sc.get("offset") is not None or r.random() < 0.5) and not sc.get("invalid_cron")
                     if sc.get("cron") is not None and not sc["cronspec"]:
                         sc["offset"] = None
                     ops.append({"op": "create", "source": si, "at_us": at, "sched": sc})
